@@ -54,11 +54,21 @@ impl Qcow2Info {
             default_bytes: usize,
             bs_bits: u8,
             cluster_shift: u8,
-        ) -> (u8, usize) {
-            match param {
+        ) -> Qcow2Result<(u8, usize)> {
+            Ok(match param {
                 Some((b, s)) => {
-                    debug_assert!(b >= bs_bits && u32::from(b) <= cluster_shift as u32);
-                    assert!((s >> b) >= 2);
+                    // the caller can't know the cluster size before the header is
+                    // parsed, so report a mismatch instead of asserting
+                    if b < bs_bits || b > cluster_shift || (s >> b) < 2 {
+                        return Err(format!(
+                            "cache slice of {} bytes x {} doesn't fit block size {} and cluster size {}",
+                            1u64 << b,
+                            s >> b,
+                            1u64 << bs_bits,
+                            1u64 << cluster_shift
+                        )
+                        .into());
+                    }
                     (b, s >> b)
                 }
                 None => {
@@ -68,7 +78,7 @@ impl Qcow2Info {
 
                     (bits, cnt)
                 }
-            }
+            })
         }
 
         let l2_mapping_bytes = std::cmp::min(h.size() >> (cluster_shift - 3), 32 << 20) as usize;
@@ -77,9 +87,9 @@ impl Qcow2Info {
             l2_mapping_bytes,
             block_size_shift,
             cluster_shift,
-        );
+        )?;
         let (rb_slice_bits, rb_cache_cnt) =
-            cache_geometry(p.rb_cache, 256 << 10, block_size_shift, cluster_shift);
+            cache_geometry(p.rb_cache, 256 << 10, block_size_shift, cluster_shift)?;
 
         //todo: support extended l2
         let l2_entries = cluster_size / std::mem::size_of::<u64>();
